@@ -35,6 +35,7 @@ type PropCfg struct {
 	AllowedGlobalWriters map[string][]string `json:"allowed_global_writers"`
 	AllowedNondet        map[string][]string `json:"allowed_nondet"`
 	AllowedGlobals       []string            `json:"allowed_globals"`
+	Except               map[string][]string `json:"except"` // function -> description substrings: matching obligations are not claimed (listed as assumed), whatever their ordinal
 	FieldWriters         map[string][]string `json:"field_writers"` // field.writers: struct field -> functions that may assign it
 	AllowedIDMapKeys     []string            `json:"allowed_id_map_keys"`
 }
@@ -259,6 +260,33 @@ func cmdCheck(args []string) int {
 					ds = append(ds, fmt.Sprintf("%d x %s", dropped[k], k))
 				}
 				assumedSet[fmt.Sprintf("%s: only obligations of kind %v are claimed for this property; not claimed and therefore assumed on the paths that continue: %s", f, kf, strings.Join(ds, ", "))] = true
+			}
+			r.Obls = keep
+		}
+		if ex, ok := pc.Except[f]; ok {
+			var keep []*Obligation
+			hit := map[string]int{}
+			for _, o := range r.Obls {
+				drop := ""
+				if !o.Cover {
+					for _, t := range ex {
+						if exceptMatch(o.Text, t) {
+							drop = t
+							break
+						}
+					}
+				}
+				if drop != "" {
+					hit[drop]++
+					continue
+				}
+				keep = append(keep, o)
+			}
+			for _, t := range ex {
+				if hit[t] > 0 { // an exclusion that matches nothing is harmless
+
+					assumedSet[fmt.Sprintf("%s: %d obligation(s) described by %q are not claimed (not discharged within this function's contract); assumed on the paths that continue", f, hit[t], t)] = true
+				}
 			}
 			r.Obls = keep
 		}
@@ -608,3 +636,19 @@ var standingAssumptions = []string{
 	"A4 go/types resolves what the compiler resolves",
 }
 
+
+// exceptMatch: an exclusion names an obligation by its description, not its ordinal, so that it survives unrelated edits.
+// The text must be equal; a leading / trailing '*' turns the comparison into suffix / prefix / substring matching.
+func exceptMatch(text, pat string) bool {
+	pre, suf := strings.HasPrefix(pat, "*"), strings.HasSuffix(pat, "*")
+	core := strings.TrimSuffix(strings.TrimPrefix(pat, "*"), "*")
+	switch {
+	case pre && suf:
+		return strings.Contains(text, core)
+	case suf:
+		return strings.HasPrefix(text, core)
+	case pre:
+		return strings.HasSuffix(text, core)
+	}
+	return text == core
+}
